@@ -228,6 +228,17 @@ static void mon_store(void* addr, int order) {
 static void mon_fence(int order) { if (order == mo_seq_cst) mon_unfenced_era_store = 0; }   /* ... and must be followed by a seq_cst fence */
 
 /* ---------------- invariant Inv_K ---------------- */
+unsigned g_pos[NSLOT];                  /* ghost witness of the free chain: height of slot i above the chain end, 0 = not on the chain */
+/* carry the witness over a step: a slot that stays free keeps its height (push/pop happen at the head only),
+ * a slot that became free is the new head, a slot that is counted in is not on the chain */
+static void witness_sync(void) {
+  unsigned nfree = 0;
+  for (int i = 0; i < NSLOT; i++) if (slot_live(i) && SLOT(i)->guard_cnt == 0) nfree++;
+  for (int i = 0; i < NSLOT; i++) {
+    if (slot_live(i) && SLOT(i)->guard_cnt == 0) { if (g_pos[i] == 0) g_pos[i] = nfree; }
+    else g_pos[i] = 0;
+  }
+}
 static era_t slot_era(const struct hazard_era* s) { return (era_t)(s->value.w >> 1); }
 struct inv_res { _Bool count_ok, rest_ok; };
 /* a, b: live operand guards (or NULL) */
@@ -241,23 +252,25 @@ static struct inv_res inv_eval(const struct guard* a, const struct guard* b) {
     if ((a && a->he) || (b && b->he)) r.count_ok = 0;
     for (int i = 0; i < NSLOT; i++) if (slot_live(i)) { if (g_others[i] != 0 || SLOT(i)->guard_cnt != 0) r.count_ok = 0; }
     if (g_cb.last_hazard_era != 0) r.rest_ok = 0;
+    for (int i = 0; i < NSLOT; i++) g_pos[i] = i < XV_K ? (unsigned)(XV_K - i) : 0;   /* witness for the chain initialize will build on first use */
     return r;
   }
   if (g_td.control_block != &g_cb) { r.rest_ok = 0; return r; }
-  /* the free chain: duplicate-free, inside the slot universe, null-terminated */
-  _Bool on[NSLOT]; for (int i = 0; i < NSLOT; i++) on[i] = 0;
-  const struct hazard_era* p = g_td.hint;
-  for (int n = 0; n < NSLOT && p != 0; n++) {
-    const struct hazard_era* nxt = 0; _Bool found = 0;
-    FOR_SLOT(i, p) {
-      found = 1;
-      if (on[i] || !SLOT(i)->value.mark) { r.rest_ok = 0; return r; }
-      on[i] = 1; nxt = SLOT(i)->value.lp;
-    }
-    if (!found) { r.rest_ok = 0; return r; }
-    p = nxt;
+  /* the free chain: duplicate-free, inside the slot universe, null-terminated, and it contains exactly the slots nobody counts in.
+   * Decided with the ghost witness g_pos (height of a free slot above the chain end, 0 = not free) instead of walking the chain:
+   * the head has height nfree, a slot of height 1 links to null, a slot of height h > 1 links to a free slot of height h-1.
+   * These local conditions hold for some g_pos exactly when the chain from hint visits every free slot once and then ends. */
+  witness_sync();
+  _Bool on[NSLOT]; unsigned nfree = 0;
+  for (int i = 0; i < NSLOT; i++) { on[i] = slot_live(i) && g_pos[i] > 0; if (on[i]) nfree++; }
+  if (g_td.hint == 0) { if (nfree != 0) r.rest_ok = 0; }
+  else { _Bool ok = 0; FOR_SLOT(i, g_td.hint) ok = on[i] && g_pos[i] == nfree; if (!ok) r.rest_ok = 0; }
+  for (int i = 0; i < NSLOT; i++) if (on[i]) {
+    if (!SLOT(i)->value.mark) r.rest_ok = 0;
+    const struct hazard_era* l = SLOT(i)->value.lp;
+    if (g_pos[i] == 1) { if (l != 0) r.rest_ok = 0; }
+    else { _Bool ok = 0; FOR_SLOT(j, l) ok = on[j] && g_pos[j] + 1 == g_pos[i]; if (!ok) r.rest_ok = 0; }
   }
-  if (p != 0) { r.rest_ok = 0; return r; }
   for (int i = 0; i < NSLOT; i++) if (slot_live(i)) {
     const struct hazard_era* s = SLOT(i);
     uint64_t cnt = g_others[i] + ((a && a->he == s) ? 1 : 0) + ((b && b->he == s) ? 1 : 0);
@@ -345,7 +358,7 @@ static void havoc_state(const struct guard* a, const struct guard* b) {
     in_others[i] = nondet_u64(); in_era[i] = nondet_u64(); in_link[i] = nondet_uint(); in_mark[i] = nondet_bool();
     XV_ASSUME(in_era[i] < ERA_MAX && in_others[i] < CNT_MAX);   /* fewer than 2^62 guard objects */
     g_others[i] = slot_live(i) ? in_others[i] : 0;
-    SLOT(i)->guard_cnt = nondet_u64();
+    SLOT(i)->guard_cnt = nondet_u64(); g_pos[i] = nondet_uint();
     SLOT(i)->value.mark = in_mark[i];
     SLOT(i)->value.lp = slot_of(in_link[i]);
     SLOT(i)->value.w = in_mark[i] ? nondet_uptr() : (uintptr_t)(in_era[i] << 1);
@@ -375,7 +388,7 @@ static void chk_exit(const struct guard* a, const struct guard* b) {
 #define XV_HAVOC_ACQ acq_havoc(); XV_ASSUME(xv_clock < CNT_MAX && mon_src_loads < CNT_MAX && mon_era_loads < CNT_MAX); self->he = any_slot_or_null(); self->ptr = nondet_uptr(); prev_era = nondet_u64()
 static void acq_havoc(void) {
   for (int i = 0; i < NSLOT; i++) {
-    SLOT(i)->guard_cnt = nondet_u64(); SLOT(i)->value.mark = nondet_bool(); SLOT(i)->value.lp = any_slot_or_null(); SLOT(i)->value.w = nondet_uptr();
+    SLOT(i)->guard_cnt = nondet_u64(); SLOT(i)->value.mark = nondet_bool(); SLOT(i)->value.lp = any_slot_or_null(); SLOT(i)->value.w = nondet_uptr(); g_pos[i] = nondet_uint();
   }
   g_cb.last_hazard_era = any_slot_or_null(); g_cb.last_era = nondet_u64();
   g_td.hint = any_slot_or_null(); g_td.control_block = nondet_bool() ? &g_cb : (struct tcb*)0;
@@ -493,6 +506,16 @@ static void h_initialize(void) {
   cb_initialize(&g_cb, &g_td.hint);
   g_td.control_block = &g_cb; g_cb.last_hazard_era = 0;
   /* expected chain: the record's own K slots, then the blocks from the newest to the oldest, each in address order */
+  { unsigned h = XV_K;
+#ifdef XV_DYN
+    h = XV_K * (1 + g_nblk);
+#endif
+    for (int i = 0; i < NSLOT; i++) g_pos[i] = 0;
+    for (int i = 0; i < XV_K; i++) g_pos[i] = h--;
+#ifdef XV_DYN
+    for (int b = 1; b >= 0; b--) if ((int)g_nblk > b) for (int i = 0; i < XV_K; i++) g_pos[(1 + b) * XV_K + i] = h--;
+#endif
+  }
   _Bool ok = 1; const struct hazard_era* p = g_td.hint; unsigned n = 0;
   for (int i = 0; i < XV_K; i++) { ok = ok && p == &g_cb.eras[i] && p->value.mark == 1 && p->guard_cnt == 0; if (ok) p = p->value.lp; n++; }
 #ifdef XV_DYN
@@ -549,6 +572,7 @@ static void h_dyn_alloc(void) {
     XV_OBL("he.dyn.new_block", r == &g_new.slots[0] && r->guard_cnt == 1 && g_td.hint == (hes > 1 ? &g_new.slots[1] : (struct hazard_era*)0));
     _Bool old_same = 1; for (int i = 0; i < 3 * XV_K; i++) if (slot_live(i)) old_same = old_same && slot_same(i);
     XV_OBL("he.dyn.new_block", old_same);
+    for (int j = 0; j < XV_NEWMAX; j++) g_pos[3 * XV_K + j] = (size_t)j < hes && j > 0 ? (unsigned)(hes - j) : 0;    /* witness for the chain of the new block */
     XV_CANARY("dyn.new_block");
   } else {
     XV_OBL("he.dyn.new_block", !g_new_used && g_cb.total_number_of_hes == total0 && g_cb.he_block == head0 && g_number_of_active_hes == pre_active && slots_same_except(r));
@@ -749,7 +773,9 @@ static void op_acquire(void) {
     chk_guard_pair();
     if (pre_a.he != 0 && ga.he != pre_a.he) chk_released(pre_a.he, 1);
     if (pre_a.he != 0 && ga.he == pre_a.he && pre_era(pre_a.he) != era_clock) XV_CANARY("acquire.reuse_own");
+#if XV_K > 1
     if (pre_a.he != 0 && ga.he != pre_a.he && ga.he != 0) XV_CANARY("acquire.left_shared");
+#endif
     if (pre_a.he == 0 && ga.he == gb.he && ga.he != 0) XV_CANARY("acquire.share_last");
     if (in_src == 0) XV_CANARY("acquire.null");
   }
